@@ -10,7 +10,10 @@
 // and just after it; replies stored through Exec are probed until they expire).
 // Lazy refresh is observed with a terminal that tells background refreshes from
 // foreground calls and blocks refreshes on a gate while bursts of concurrent
-// queries hit the stale entry.
+// queries hit the stale entry. The "held" workload (held.go) sends queries through
+// a chain front -> cache -> terminal whose front plugin holds them for up to 3.1 s,
+// so that the query context is old at the lookup (entries stored / expiring while
+// the query waits); there the bracket is the one of the LOOKUP, not of the call.
 package main
 
 import (
@@ -34,7 +37,7 @@ var (
 )
 
 type batchDesc struct {
-	Phase string `json:"phase"` // aging | admission | boundary | live | burst | transition
+	Phase string `json:"phase"` // aging | admission | boundary | live | burst | transition | held
 	Seed  int64  `json:"seed"`
 	Lazy  bool   `json:"lazy"`
 	N     int    `json:"n"`
@@ -96,7 +99,7 @@ func wantSample(phase string) bool {
 	}
 	sampleCap.mu.Lock()
 	defer sampleCap.mu.Unlock()
-	if sampleCap.n[phase] >= map[string]int{"aging": 2, "admission": 1, "boundary": 2, "live": 1, "burst": 2}[phase] {
+	if sampleCap.n[phase] >= map[string]int{"aging": 2, "admission": 1, "boundary": 2, "live": 1, "burst": 2, "held": 1}[phase] {
 		return false
 	}
 	sampleCap.n[phase]++
@@ -997,6 +1000,8 @@ func runBatch(b batchDesc) {
 		runBurst(b)
 	case "transition":
 		runTransition(b)
+	case "held":
+		runHeld(b)
 	default:
 		rep.Inconclusive("unknown phase %q", b.Phase)
 	}
@@ -1005,14 +1010,17 @@ func runBatch(b batchDesc) {
 func main() {
 	rep = evid.New("C05", "exploration")
 	caselog = evid.OpenCaseLog()
-	rep.SetRule("five workloads on the real cache plugin (Exec + its /dump and /load_dump API): " +
+	rep.SetRule("seven workloads on the real cache plugin (Exec + its /dump and /load_dump API): " +
 		"aging = generated storable replies (TTL mix from {0,1,2,5,29..31,299..301,2^31,2^32-1,...} over the three sections, rcodes NOERROR/NXDOMAIN/SERVFAIL, with/without OPT) injected with every boundary age (0,1,L/2,L-1,L,L+1, each record TTL +-1, entry expiry +-1, random; up to 136 years) and probed twice; " +
 		"admission = replies with rcode 0..23, TC on/off, zero TTLs, stored through Exec, then /dump and a second Exec; " +
 		"boundary = entries expiring at the next whole seconds probed continuously across the expiry instant; live = replies stored through Exec and probed until they expire; " +
 		"burst = 2..64 concurrent queries on a stale entry while the refresh is blocked in the upstream; " +
 		"transition = one question answered / refreshed / re-stored again and again with answers of changing kind (positive long, short, tiny TTLs; NXDOMAIN; SERVFAIL; empty NOERROR; answers that are not stored: other rcode, TC, zero TTL, no answer, failure), " +
 		"delivered by foreground misses, by gated background refreshes and by /load_dump into the running cache (same answer with its times moved into the past = shorter lifetime, or another answer with an earlier or later expiry), " +
-		"each followed by: which entry is served next, with which TTLs, does the re-stored entry expire at its NEW time (waited out in real time), how many refreshes start. lazy_cache_ttl off/on everywhere. " +
+		"each followed by: which entry is served next, with which TTLs, does the re-stored entry expire at its NEW time (waited out in real time), how many refreshes start; " +
+		"held = the query context is not fresh at the lookup: queries go through the chain front -> cache -> terminal (context from query_context.NewContext) and the front plugin holds them 0 / 0.4 / 1 / 1.3 / 2.2 / 3.1 s in real time, " +
+		"x the entry was stored before the query arrived or while it is held (another query's miss, or /load_dump with ages 0,1,2,L-4..L+2) x its TTL / its cache entry (lazy window 2 s, 3 s, 1 day, L+1..L+3) runs out before the arrival, while the query is held, or later " +
+		"x the upstream takes 0 / 1.2 s before the store x a follow-up query held 0 / 1.1 s; judged against the bracket of the LOOKUP [front returned, terminal entered] and the store instant [upstream answered, call returned]. lazy_cache_ttl off/on everywhere. " +
 		"One case = one judged Exec (or one dumped entry); non-trivial = the call was answered from the cache (fresh or stale) or was refused/expired by a rule of the statement; distinct = workload x reply shape x lazy x age/instant class x outcome x seconds subtracted")
 	rep.Assume("the wall clock does not step during a run (mosdns compares time.Now() with Unix-second expiries; each call is bracketed by wall-clock readings widened by 2 us)")
 	rep.Assume("entries injected through /load_dump with stored/msg-expiry/entry-expiry = (now-age, stored+lifetime, stored+entry lifetime) are states the store path itself produces, shifted in time")
@@ -1073,7 +1081,23 @@ func main() {
 		trans = append(trans, batchDesc{Phase: "transition", Seed: rng.Int63(), Lazy: i%3 != 2, N: 40, Idx: i})
 	}
 
+	// held batches sleep (all their cases concurrently, <= ~7 s a batch): own goroutines, a few at a time
+	var held []batchDesc
+	for i := 0; i < rep.Pick(6, 72); i++ {
+		held = append(held, batchDesc{Phase: "held", Seed: rng.Int63(), Lazy: i%2 == 1, N: 48, Idx: i})
+	}
+
 	var wg sync.WaitGroup
+	hsem := make(chan struct{}, 8)
+	for _, b := range held {
+		wg.Add(1)
+		go func(b batchDesc) {
+			defer wg.Done()
+			hsem <- struct{}{}
+			runBatch(b)
+			<-hsem
+		}(b)
+	}
 	twork := make(chan batchDesc)
 	for w := 0; w < 12; w++ {
 		wg.Add(1)
@@ -1180,6 +1204,11 @@ func main() {
 		need("transition:re-stores_with_earlier_entry_expiry", "no entry re-stored with an earlier expiry")
 		need("transition:reloaded_with_shorter_lifetime_gone_at_new_expiry", "no re-stored entry seen expiring at its new time")
 		need("transition:fresh_hits_aged_by_reloaded_times", "no re-stored entry served with TTLs aged by its new times")
+		need("held:fresh_hits_aged_by_whole_seconds_with_context_older_than_1s", "no aged hit by a query whose context was older than 1 s at the lookup")
+		need("held:hits_on_entries_stored_after_the_query_arrived", "no hit on an entry stored after the query had arrived")
+		need("held:stale_hits_on_answers_whose_ttl_ran_out_while_the_query_was_held", "no stale hit on an answer whose TTL ran out while the query was held")
+		need("held:misses_on_entries_dropped_while_the_query_was_held", "no miss on an entry that was dropped (TTL with lazy off / lazy window) while the query was held")
+		need("held:followup_hits_on_answers_stored_1s_or_more_after_the_query_arrived", "no hit on an answer stored by a query that was 1 s old or older")
 		if exp == 0 || miss*100 > exp {
 			rep.Inconclusive("%d of %d probes that could only be answered from the cache were misses (> 1 %%): the aging oracle would be vacuous", miss, exp)
 		}
